@@ -11,7 +11,7 @@ gcc $dcf -I"$wt" -I/usr/include/libpng16 "$sd/demo.c" -L"$wt/.libs" -lm4ri -lm -
 git apply "$sd/patch.diff" || { echo "apply_failed" >> "$out"; exit 1; }
 touch m4ri/*.c; make -j8 >/dev/null 2>&1; echo "build_rc=$?" >> "$out"
 gcc $dcf -I"$wt" -I/usr/include/libpng16 "$sd/demo.c" -L"$wt/.libs" -lm4ri -lm -lpng16 -lpthread -Wl,-rpath,"$wt/.libs" -o "$sd/demo_changed" 2>>"$out"
-( cd "$sd" && timeout 900 ./demo_changed > "$sd/demo_changed.out" 2>&1 ); echo "changed_demo_rc=$?" >> "$out"
+( cd "$sd" && timeout 900 ./demo_changed > demo_changed.out 2>&1 ); echo "changed_demo_rc=$?" >> "$out"
 # the pinned suite runs in the default build
 ./configure >/dev/null 2>&1; make clean >/dev/null 2>&1; make -j8 >/dev/null 2>&1; echo "default_build_rc=$?" >> "$out"
 make -C tests clean >/dev/null 2>&1
